@@ -219,6 +219,24 @@ def brute(rng, tier):
                 refm = pts[order].mean(dim=1)[keep]
                 if o.shape != refm.shape or not torch.allclose(o, refm, atol=1e-9):
                     fails.append(dict(clause='knn_filter_bruteforce', signature=f'radius={"yes" if use_r else "no"}', n=n, k=kk, radius=use_r, ord=str(ord_)))
+        # knn_filter with TIES at distance zero: groups of s points share their coordinates exactly and differ in the feature channels
+        # (two returns of one surface point); with k = s - 1 the k nearest neighbours of a point are exactly the other members of its
+        # group, whatever order topk lists equal distances in - the result is the group mean, coordinates AND features
+        if t % 2 == 0:
+            sgrp = rng.choice([2, 3]); ng = rng.randrange(2, 6); dd = rng.randrange(1, 4)
+            centres = torch.randn(ng, dd, dtype=torch.float64, generator=g) * 10 + 100 * torch.arange(ng, dtype=torch.float64)[:, None]
+            coords = centres.repeat_interleave(sgrp, 0); feats = torch.randn(ng * sgrp, 2, dtype=torch.float64, generator=g)
+            tp = torch.cat([coords, feats], -1)
+            permt = torch.randperm(tp.shape[0], generator=g); tp = tp[permt]
+            gid = torch.arange(ng).repeat_interleave(sgrp)[permt]
+            want = torch.stack([tp[gid == gid[i]].mean(0) for i in range(tp.shape[0])])
+            for use_r in (None, 5.0):
+                try:
+                    o = pp.knn_filter(tp, sgrp - 1, pdim=dd, radius=use_r, ord=ord_); evals += 1
+                    if o.shape != want.shape or not torch.allclose(o, want, atol=1e-9):
+                        fails.append(dict(clause='knn_filter_coincident_points', signature=f'group={sgrp},radius={"yes" if use_r else "no"},ord={ord_}', groups=ng, pdim=dd))
+                except Exception as e:
+                    fails.append(dict(clause='knn_filter_raises', signature=f'coincident points, group={sgrp},radius={use_r}', error=f'{type(e).__name__}: {e}'[:120]))
         # voxel_filter
         vox = [float(rng.choice([0.5, 1.0, 3.0])) for _ in range(min(d, 3))]
         vd = len(vox)
